@@ -6,6 +6,8 @@ pub mod push;
 pub mod subscriptions;
 pub mod topics;
 mod tracing;
+#[cfg(deltio_verif)]
+pub mod verif;
 
 use crate::api::subscriber::SubscriberService;
 use crate::pubsub_proto::publisher_server::PublisherServer;
@@ -72,6 +74,24 @@ impl Deltio {
     pub fn push_loop(&self, interval: Duration) -> PushLoop {
         PushLoop::new(
             interval,
+            Arc::clone(&self.subscription_manager),
+            self.push_subscriptions_registry.clone(),
+        )
+    }
+}
+
+#[cfg(deltio_verif)]
+impl Deltio {
+    /// The managers and the push registry, for the verification harness.
+    pub fn verif_parts(
+        &self,
+    ) -> (
+        Arc<TopicManager>,
+        Arc<SubscriptionManager>,
+        PushSubscriptionsRegistry,
+    ) {
+        (
+            Arc::clone(&self.topic_manager),
             Arc::clone(&self.subscription_manager),
             self.push_subscriptions_registry.clone(),
         )
